@@ -3,7 +3,9 @@
   c04_streams.py classes           -> one JSON line: every registered payload class with one encoder-built message
   c04_streams.py impl              -> line protocol runner around FusionEngineDecoder (see below)
 
-impl input line:   <S|V> <maxp> <maxe|-> <rb> <ro> <stream-hex|-> <chunkings>
+impl input line:   <S|V> <maxp> <maxe|-> <rb> <ro> <opts> <stream-hex|-> <chunkings>
+    opts = <warn_on_error: none|likely|all>,<warn_on_gap 0|1>,<warn_on_unrecognized 0|1>   (logging options: they must not change
+           results or make on_data raise; log output itself is suppressed)
     maxe '-' = leave MessageHeader._MAX_EXPECTED_SIZE_BYTES alone; a number = run with that class attribute set
     chunkings: ';' separated  ONE | BYTES | SPLITS | c:<n1>,<n2>,...
 impl output line:  <oracle> # <per chunking, ' | ' separated>
@@ -124,8 +126,10 @@ def attr(o, name):
     return getattr(o, name, '?')
 
 
-def run_chunking(stream, sizes, maxp, rb, ro):
-    dec = FusionEngineDecoder(max_payload_len_bytes=maxp, return_bytes=rb, return_offset=ro, warn_on_error='none')
+def run_chunking(stream, sizes, maxp, rb, ro, opts='likely,0,0'):
+    woe, gap, unrec = opts.split(',')
+    dec = FusionEngineDecoder(max_payload_len_bytes=maxp, return_bytes=rb, return_offset=ro, warn_on_error=woe,
+                              warn_on_gap=gap == '1', warn_on_unrecognized=unrec == '1')
     got_all, got_typed = [], []
     dec.add_callback(None, lambda *a: got_all.append(a))
     typed = {}
@@ -222,14 +226,14 @@ def impl_main():
         w = line.split()
         if not w:
             continue
-        mode, maxp, maxe, rb, ro, sh, chunkings = w
+        mode, maxp, maxe, rb, ro, opts, sh, chunkings = w
         stream = bytes.fromhex('' if sh == '-' else sh)
         MessageHeader._MAX_EXPECTED_SIZE_BYTES = default_maxe if maxe == '-' else int(maxe)
         try:
             orc = oracle(stream, MessageHeader._MAX_EXPECTED_SIZE_BYTES)
             outs = []
             for sizes in expand(chunkings, len(stream)):
-                r, a = run_chunking(stream, sizes, int(maxp), rb == '1', ro == '1')
+                r, a = run_chunking(stream, sizes, int(maxp), rb == '1', ro == '1', opts)
                 outs.append('I{%s}{%s}' % (r, a) if mode == 'V' else '%s %s' % (d8(r), d8(a)))
             print(orc + ' # ' + ' | '.join(outs), flush=False)
         except Exception as e:
